@@ -110,6 +110,12 @@ func runC06(p *Prog, r *Report) {
 		mc := us.Ev("call", "sub.(*context).matches")
 		st := us.Ev("store", "recv.subs")
 		r.Check(len(mc) == 1 && len(st) == 1 && mc.DominatedBy(st), R, "matches-after-removal", mc.Pos(p), "matching is evaluated after the topic was removed", "the queue is pruned against the old subscription list")
+		// whenever a topic was removed the queue is rebuilt, whatever is left of the list: the
+		// messages queued for the removed topic must not be handed out afterwards
+		{
+			ok, why := q.FollowedBy(st, us.Ev("store", "recv.recvQ"))
+			r.Check(ok, R, "queue-rebuilt-after-every-removal", st.Pos(p), "every path from the removal to the return replaces the queue", "after a topic was removed from the subscription list "+why+" (without replacing and pruning the receive queue): messages queued for the removed topic are still delivered")
+		}
 		q.ListRemoval(R, "removes-exactly-the-equal-topic", us, "recv.subs", "", "unsubscribe does not remove exactly the one entry that is byte-equal to the topic")
 		var bv Sel
 		for _, e := range us.Ev("return", "") {
